@@ -767,5 +767,14 @@ func drawProg(rt *rapid.T) Case {
 	if b.plant != "" {
 		c.PlantIdx = plantIdx
 	}
+	if b.plant == "runtime" {
+		// a third of the programs is run the way the command line tool runs an entry file
+		switch rapid.IntRange(0, 5).Draw(rt, "route") {
+		case 0, 1:
+			c.CLI = true
+		case 2:
+			c.Module = true // imported a second time by the same provider after its text has moved
+		}
+	}
 	return c
 }
